@@ -238,7 +238,15 @@ pub fn gen_tree(rng: &mut Rng, mode: TreeMode) -> TreeSpec {
             nodes.push(Node { path: p, kind: NodeKind::Text(text) });
         }
         // roots
-        match rng.below(8) {
+        match rng.below(10) {
+            // several sub-directories as roots (siblings, nested ones, the same parent met again
+            // after another root): what their common ancestors' ignore files say holds for each
+            8 | 9 if dirs.len() > 2 => {
+                let mut k: Vec<String> = dirs[1..].to_vec();
+                rng.shuffle(&mut k);
+                k.truncate(2 + rng.below(3));
+                roots = k;
+            }
             0 if dirs.len() > 1 => roots = vec![dirs[1 + rng.below(dirs.len() - 1)].clone()],
             1 if !files.is_empty() => roots = vec![files[rng.below(files.len())].clone()],
             2 if !files.is_empty() => {
